@@ -163,6 +163,7 @@ class Contract:
         self.property = spec.pop("prop", None)
         self.configs = spec.pop("configs", None)        # list of dicts of concrete param overrides
         self.post_hook = spec.pop("post_hook", None)
+        self.lemmas = list(spec.pop("lemmas", []))      # [(lemma name, param names...)] instantiated before the ensures are checked
         self.effects = spec.pop("effects", None)        # callable(interp, env): havoc what the call modifies (before ensures are assumed)
         self.variant = spec.pop("variant", None)
         self.env = dict(spec.pop("env", {}))
